@@ -261,14 +261,39 @@ func checkNullRows(doc billable) error {
 }
 
 func checkNullSubLines(l *Line) error {
+	if err := checkNullLineDiscountsAndCharges(l.Discounts, l.Charges); err != nil {
+		return err
+	}
 	for i, sl := range l.Breakdown {
 		if sl == nil {
 			return validation.Errors{"breakdown": nullRowError(i)}
+		}
+		if err := checkNullLineDiscountsAndCharges(sl.Discounts, sl.Charges); err != nil {
+			return validation.Errors{"breakdown": validation.Errors{strconv.Itoa(i): err}}
 		}
 	}
 	for i, sl := range l.Substituted {
 		if sl == nil {
 			return validation.Errors{"substituted": nullRowError(i)}
+		}
+		if err := checkNullLineDiscountsAndCharges(sl.Discounts, sl.Charges); err != nil {
+			return validation.Errors{"substituted": validation.Errors{strconv.Itoa(i): err}}
+		}
+	}
+	return nil
+}
+
+// checkNullLineDiscountsAndCharges is only expected to find something when
+// the line has not been normalized, as that removes the empty rows.
+func checkNullLineDiscountsAndCharges(discounts []*LineDiscount, charges []*LineCharge) error {
+	for i, d := range discounts {
+		if d == nil {
+			return validation.Errors{"discounts": nullRowError(i)}
+		}
+	}
+	for i, c := range charges {
+		if c == nil {
+			return validation.Errors{"charges": nullRowError(i)}
 		}
 	}
 	return nil
@@ -345,8 +370,8 @@ func removeIncludedTaxes(doc billable) error {
 	// check again that the amount to pay is the one we started with.
 	for i := 0; i < 3; i++ {
 		t := doc.getTotals()
-		if totalWithTax.Equals(t.Payable) {
-			break
+		if t == nil || totalWithTax.Equals(t.Payable) {
+			break // nothing priced, or all good
 		}
 		// adjust by what is still missing from the amount to pay: working
 		// from the presented total with tax could be a unit out when the
